@@ -263,10 +263,14 @@ def main():
         log("%s/%s %s[%s%s]: %d runs (+%d crashed) in %.1fs" % (pid, tier, part["harness"], part["variant"], "-cx" if part.get("complex") else "", nres, len(crashes), wall))
     # determinism sample: re-execute a 2% sample of the seeds (up to 64 per part) in fresh processes, hashes must agree
     det_checked = 0
+    import concurrent.futures
+    jobs = []
     for pi, part in enumerate(spec["parts"][tier]):
         exe = exe_for(part, built)
         for seed, h, v in agg.det.get(pi, []):
-            r2 = vlib.run_single(exe, seed, cfg=part.get("cfg") or None)
+            jobs.append((exe, seed, part.get("cfg") or None, h, v))
+    with concurrent.futures.ThreadPoolExecutor(max_workers=vlib.NWORKERS) as ex:
+        for (exe, seed, cfgo, h, v), r2 in zip(jobs, ex.map(lambda j: vlib.run_single(j[0], j[1], cfg=j[2]), jobs)):
             det_checked += 1
             if r2["hash"] != h or r2["verdict"] != v:
                 nondet.append((seed, h, r2["hash"], v, r2["verdict"]))
